@@ -213,5 +213,5 @@ def _check(case):
 
 
 SUBCHECKS = [
-    HypSub("nonlinear", _case, _check, _classify, budget={"quick": 600, "thorough": 10000}),
+    HypSub("nonlinear", _case, _check, _classify, budget={"quick": 600, "thorough": 40000}),
 ]
